@@ -180,6 +180,22 @@ def transition_oracle(cfg, T, want):
 def state_oracle(cfg, T, want):
     def check(an, hist):
         out = []
+        if "c01" in want:
+            # in THIS memo state, the answers for all alphabet addresses preserve common prefixes
+            L = ipdom.width(cfg)
+            probe = copy.deepcopy(an)
+            A = alphabet(cfg)
+            try:
+                imgs = [(a, probe.anonymize(a)) for a in A]
+            except Exception as e:
+                return [("exception-in-state:" + type(e).__name__, "history %r: %r" % (list(hist), e))]
+            for i, (a, fa) in enumerate(imgs):
+                for b, fb in imgs[i:]:
+                    if ipdom.cpl(a, b, L) != ipdom.cpl(fa, fb, L):
+                        out.append(("cpl-not-preserved-in-reachable-state",
+                                    "after history %r: %d and %d share %d bits, images %d and %d share %d" % (
+                                        list(hist), a, b, ipdom.cpl(a, b, L), fa, fb, ipdom.cpl(fa, fb, L))))
+                        return out
         if "c17" in want:
             pairs = parse_dump(ipdom.dump(copy.deepcopy(an)))
             origs, repls = set(), set()
